@@ -419,30 +419,31 @@ func stepT(st jstep) string {
 		op, vh.N(uint64(st.Err)), vh.N(uint64(st.Dropped)), schemaT(st.Schema), logT, snapT, vh.List(ts))
 }
 
-// shape of the known finding: a measurement drop followed — before the next clean restart —
-// by a crash restart or by a step whose torn images are observed.
-func histSig(c *jcase) string {
+// dropThenCrash: a measurement drop followed — before the next clean restart — by a crash restart
+// or by a step whose torn images are observed (the shape of the former finding drop-not-logged;
+// repaired, so it carries no signature any more: a regression is a VIOLATION).
+func dropThenCrash(c *jcase) bool {
 	pending := false
 	for _, st := range c.Steps {
 		switch st.Op {
 		case "drop":
 			if st.Torn {
-				return "drop-not-logged"
+				return true
 			}
 			pending = true
 		case "clean":
 			pending = false
 		case "crash":
 			if pending {
-				return "drop-not-logged"
+				return true
 			}
 		case "write":
 			if pending && st.Torn {
-				return "drop-not-logged"
+				return true
 			}
 		}
 	}
-	return ""
+	return false
 }
 
 func runHist(w *vh.W, c *jcase) {
@@ -484,9 +485,9 @@ func runHist(w *vh.W, c *jcase) {
 			w.Count("torn_offsets", fmt.Sprint(n/10*10)+"+")
 		}
 	}
-	sig := histSig(c)
+	sig := ""
 	idx := w.Add("CHist "+vh.List(ts), c, nontrivial, sig)
-	w.Count("sig", sig)
+	w.Count("drop_then_crash", fmt.Sprint(dropThenCrash(c)))
 	if machinery != nil {
 		w.Fail(idx, machinery.Error(), sig)
 	}
@@ -583,7 +584,7 @@ func corpus() []jcase {
 		{Kind: "hist", Steps: []jstep{wr(false, pt("m0", 0, "a", 1)), drop("m0"), clean, wr(false, pt("m0", 0, "a", 2)), clean, crash}},
 		// drop without restart, re-create with another type, clean restart
 		{Kind: "hist", Steps: []jstep{wr(false, pt("m0", 0, "a", 1)), drop("m0"), wr(false, pt("m0", 0, "a", 2)), clean, wr(false, pt("m0", 0, "a", 1))}},
-		// KNOWN FINDING shapes: drop, then unclean restart
+		// former finding drop-not-logged: drop, then unclean restart (deletion records must be replayed)
 		{Kind: "hist", Steps: []jstep{wr(false, pt("m0", 0, "a", 1)), drop("m0"), crash, wr(false, pt("m0", 0, "a", 2))}},
 		{Kind: "hist", Steps: []jstep{wr(false, pt("m0", 0, "a", 1)), clean, drop("m0"), crash, wr(false, pt("m0", 0, "a", 2))}},
 		{Kind: "hist", Steps: []jstep{wr(false, pt("m0", 0, "a", 1)), drop("m0"), wr(false, pt("m0", 0, "a", 2), pt("m1", 0, "x", 1)), wr(false, pt("m1", 0, "y", 1)), crash, wr(false, pt("m1", 0, "y", 2)), crash}},
@@ -629,7 +630,7 @@ func main() {
 		known := map[string]int{}
 		c := jcase{Kind: "hist"}
 		n := 2 + r.IntN(8)
-		allowFinding := r.IntN(4) == 0 // 1 in 4 histories may have the known-finding shape
+		allowFinding := r.IntN(2) == 0 // every 2nd history may crash (or observe torn tails) after an unsnapshotted drop
 		pendingDrop := false
 		for i := 0; i < n; i++ {
 			x := r.IntN(20)
